@@ -161,6 +161,64 @@ func fSlice(xs [][]string, m map[int][]string) {
 	}
 }
 
+func fDupBranch(in string, h, q []string) ([]string, []string) {
+	switch in {
+	case "header":
+		h = append(h, in)
+	case "query":
+		h = append(h, in)
+	}
+	return h, q
+}
+
+func fSelfSearch(xs []string) bool {
+	for _, a := range xs {
+		found := false
+		for _, b := range xs {
+			if a == b {
+				found = true
+			}
+		}
+		if !found {
+			return false
+		}
+	}
+	return true
+}
+
+func set([]string) {}
+func fTwinGuard(hdr, trlr []string) {
+	if len(hdr) > 0 {
+		set(hdr)
+	}
+	if len(hdr) > 0 {
+		set(trlr)
+	}
+}
+
+type V struct{ Required []string }
+
+func (v *V) Add(...string) {}
+
+type W struct{ Validation *V }
+
+func fLazyInit(a, parent *W) {
+	if a.Validation == nil {
+		a.Validation = &V{}
+		a.Validation.Add(parent.Validation.Required...)
+	}
+}
+
+type S struct{ Name string }
+type R struct{ Schemes []*S }
+
+func DupS(s *S) *S { return &S{Name: s.Name} }
+func DupR(r *R) *R {
+	d := &R{Schemes: make([]*S, len(r.Schemes))}
+	copy(d.Schemes, r.Schemes)
+	return d
+}
+
 func fSortCond(m map[string]int) []string {
 	var keys []string
 	for k := range m {
@@ -218,6 +276,6 @@ func LintSelfTest() (map[string]bool, error) {
 }
 
 // SelfTestKinds lists the lint kinds that must fire in the self-test.
-var SelfTestKinds = []string{"var", "memo", "recursion", "slice", "flag", "break", "swap", "guardfield", "retryonce", "guardvar", "rawname", "invariant", "mapstore", "selfcopy", "parity", "maporder"}
+var SelfTestKinds = []string{"dupbranch", "selfsearch", "twinguard", "lazyinit", "shallow", "var", "memo", "recursion", "slice", "flag", "break", "swap", "guardfield", "retryonce", "guardvar", "rawname", "invariant", "mapstore", "selfcopy", "parity", "maporder"}
 
 func init() { sort.Strings(SelfTestKinds) }
